@@ -26,7 +26,7 @@ pub struct Tier {
 
 pub fn tier(tier: &str, only_maintenance: bool) -> Tier {
     let off = verif_seed().unsigned_abs() * 100;
-    let bases = [BASE0, BASE1];
+    let bases = [BASE0, BASE1, BASE2];
     let (mut insts, seeds, describe) = if tier == "thorough" {
         let mut v = instances(&bases, 1, 3);
         let mut seen: std::collections::HashSet<Inst> = v.iter().cloned().collect();
@@ -35,12 +35,20 @@ pub fn tier(tier: &str, only_maintenance: bool) -> Tier {
                 v.push(i);
             }
         }
-        (v, vec![1 + off, 2 + off, 3 + off, 4 + off], "bases {no maintenance; one slot x 2 tracks with binding maximalDistance}: (<=1 config deviation x <=3 trips) U (<=2 deviations x <=2 trips); 4 hash seeds".to_string())
+        (v, vec![1 + off, 2 + off, 3 + off, 4 + off], "bases {no maintenance; one slot x 2 tracks with binding maximalDistance; a slot overlapping/tying the trips with binding maximalDistance}: (<=1 config deviation x <=3 trips) U (<=2 deviations x <=2 trips); 4 hash seeds".to_string())
     } else {
-        (instances(&bases, 1, 2), vec![1 + off, 2 + off], "bases {no maintenance; one slot x 2 tracks with binding maximalDistance}: <=1 config deviation x <=2 trips; 2 hash seeds".to_string())
+        (instances(&bases, 1, 2), vec![1 + off, 2 + off], "bases {no maintenance; one slot x 2 tracks with binding maximalDistance; a slot overlapping/tying the trips with binding maximalDistance}: <=1 config deviation x <=2 trips; 2 hash seeds".to_string())
     };
     if only_maintenance {
         insts.retain(|i| i.has_maintenance());
+    }
+    // debugging aid (not used by registered commands): keep only instances whose description contains all tokens
+    if let Ok(f) = std::env::var("RSV_FILTER") {
+        let toks: Vec<String> = f.split_whitespace().map(|s| s.to_string()).collect();
+        insts.retain(|i| {
+            let d = i.describe();
+            toks.iter().all(|t| d.contains(t.as_str()))
+        });
     }
     Tier { insts, seeds, describe }
 }
@@ -182,7 +190,7 @@ pub fn worker_flow(task: &Value) -> Value {
         return json!({"status": "ok", "results": {"C14": {"nt": false, "viol": [], "skipped": "out of scope: depot totals couple the vehicle types"}}, "digest": "out-of-scope", "summary": {"scope": false}});
     }
     let res = pool::run_isolated(seed, move || {
-        let a = crate::arena::Arena::from_input_no_inits("c14", "", input);
+        let a = crate::arena::Arena::from_input_no_inits("c14", "", input, seed);
         let start = solver::min_cost_flow_solver::MinCostFlowSolver::initialize(a.nw.clone()).solve();
         let (viol, nt) = crate::c14::check(&a, &start);
         (viol, nt, crate::canon::tours_key(&start), start.number_of_vehicles(), start.costs())
@@ -244,6 +252,8 @@ pub struct SweepSpec<'a> {
     pub failures_are_verdicts: bool,
     pub exe: Option<std::path::PathBuf>,
     pub extra_label: &'a str,
+    /// use only the first n hash seeds of the tier (None = all)
+    pub max_seeds: Option<usize>,
 }
 
 pub fn task_json(kind: &str, prop: &str, inst: &Inst, seed: u64) -> Value {
@@ -273,7 +283,10 @@ fn outcome_fingerprint(o: &Outcome, prop: &str) -> String {
 
 /// Run the sweep for one property and one binary; returns the aggregated counters merged into `report`.
 pub fn run(spec: &SweepSpec, tier_name: &str, report: &mut Report) {
-    let t = tier(tier_name, spec.only_maintenance);
+    let mut t = tier(tier_name, spec.only_maintenance);
+    if let Some(n) = spec.max_seeds {
+        t.seeds.truncate(n);
+    }
     let exe = spec.exe.clone().unwrap_or_else(|| std::env::current_exe().expect("current exe"));
     let ntasks = t.insts.len() * t.seeds.len();
     let agg = Mutex::new(Agg::default());
